@@ -209,7 +209,8 @@ def random_tree(rng: Any, depth: int, pos: str = 'expr') -> Any:
         return [9, [[(sub() if rng.random() < 0.85 else None), sub()] for _ in range(rng.randint(0, 3))]]
     if r < 0.98:
         return [13, 2, ['p'][:rng.randint(0, 1)], sub()]
-    return rng.choice([[13, 4, sub()], [13, 6, 'w', sub()], [13, 7, sub(), N('t'), sub(), []], [13, 9, ['s', sub()]]])
+    return rng.choice([[13, 4, sub()], [13, 6, 'w', sub()], [13, 7, sub(), N('t'), sub(), []],
+                       [13, 9, ['s', rng.choice([N('a'), [4, 1, N('a'), N('b')], [11, N('f'), [N('a')], []]])]]])
 
 
 def has_re_compile(e: Any) -> bool:
